@@ -351,6 +351,7 @@ func (c13) Check(c *core.Case, env *core.Env, res zzsim.Result, v *core.Verdict)
 		unregs    [2][]int64         // unregister requests: seq at which the client wrote them
 		lateEvent [2]map[int32]int64 // event n -> seq of the unregister ack it followed
 		evCount   [2]map[int32]int   // how often event n was sent on this connection
+		evRegs    [2]map[int32]int   // registrations of the signal on the connection when it was sent (max)
 	}
 	wires := map[int]*connWire{}
 	conns := env.NW.Conns()
@@ -358,7 +359,7 @@ func (c13) Check(c *core.Case, env *core.Env, res zzsim.Result, v *core.Verdict)
 		if pair >= len(conns) {
 			continue
 		}
-		cw := &connWire{lateEvent: [2]map[int32]int64{{}, {}}, evCount: [2]map[int32]int{{}, {}}}
+		cw := &connWire{lateEvent: [2]map[int32]int64{{}, {}}, evCount: [2]map[int32]int{{}, {}}, evRegs: [2]map[int32]int{{}, {}}}
 		wires[ci] = cw
 		cc := conns[pair]
 		c2s, c2sMarks := cc.Sent()
@@ -426,6 +427,17 @@ func (c13) Check(c *core.Case, env *core.Env, res zzsim.Result, v *core.Verdict)
 						n = -n
 					}
 					cw.evCount[i][n]++
+					// registrations acknowledged so far plus requests on their way
+					regs := count[i]
+					at := c13seqOf(s2cMarks, f.End)
+					for _, r := range cw.regs[i] {
+						if r.reqSeq < at && r.replyWrite > at {
+							regs++
+						}
+					}
+					if regs > cw.evRegs[i][n] {
+						cw.evRegs[i][n] = regs
+					}
 				}
 				if zeroAt[i] == 0 || len(f.Payload) != 4 {
 					continue
@@ -498,7 +510,9 @@ func (c13) Check(c *core.Case, env *core.Env, res zzsim.Result, v *core.Verdict)
 				continue
 			}
 			if got[n] {
-				if cw != nil && cw.evCount[sig][n] > 1 {
+				if cw != nil && cw.evCount[sig][n] > 1 && cw.evRegs[sig][n] < 2 {
+					bad("duplicate/sent-twice-with-one-registration", "%s received event %d twice: the server sent it %d times on this connection although at most one registration of the signal was active there: %v", name, n, cw.evCount[sig][n], s.evs)
+				} else if cw != nil && cw.evCount[sig][n] > 1 {
 					bad("duplicate/sent-twice-on-connection", "%s received event %d twice: the server sent it %d times on this connection (two registrations of the signal were active): %v", name, n, cw.evCount[sig][n], s.evs)
 				} else {
 					bad("duplicate/other", "%s received event %d twice although it was sent once on the connection: %v", name, n, s.evs)
